@@ -558,7 +558,7 @@ func W1S(sink Sink) {
 	c := &h.Case{Family: "W1S"}
 	c.DescFn = func(c *h.Case) string { return fmt.Sprintf("escape pair (%q,%q) shape %d position %d", esc[c.P[0]], esc[c.P[1]], c.P[2], c.P[3]) }
 	buf := make([]byte, 0, 128)
-	keyPos := [][2]string{{"{", ":1}"}, {`{"a":1,`, ":2}"}, {"[{", ":null}]"}, {`[{"a":1,`, ":2}]"}, {`{"k":{`, ":1}}"}, {`{"k":{"a":1,`, ":2}}"}, {`[0,{`, ":1}]"}}
+	keyPos := [][2]string{{"{", ":1}"}, {`{"a":1,`, ":2}"}, {"[{", ":null}]"}, {`[{"a":1,`, ":2}]"}, {`{"k":{`, ":1}}"}, {`{"k":{"a":1,`, ":2}}"}, {`[0,{`, ":1}]"}, {`{"o\tk":{`, ":1}}"}, {`{"o\tk":[{`, ":1}]}"}, {`{"o\u00e9":{"a":1,`, ":1}}"}}
 	for i, e1 := range esc {
 		for j, e2 := range esc {
 			for shape := 0; shape < 3; shape++ {
